@@ -1,6 +1,7 @@
 package govc
 
 import (
+	"fmt"
 	"go/ast"
 	"go/token"
 	"go/types"
@@ -36,9 +37,16 @@ func (x *Exec) chanClose(n *node, ch *Term, pos token.Pos) {
 	st := n.st
 	x.nilCheck(n, ch, pos, "close")
 	txt := x.srcExpr(pos, "call")
-	// closing twice panics: the channel must be known open; shared channels are closed under a typestate discipline
-	x.Oblige("close", txt, "", pos, n.guard, Not(x.objGet(st, "Chan.closed", BoolS, ch)), nil)
-	x.objSet(st, "Chan.closed", ch, True)
+	key := "Chan.closed"
+	if x.lastChanField != "" {
+		key = "Chan.closed@" + x.lastChanField
+	}
+	if li := x.guardedBy(key); li != nil && !n.st.Locks[lockName(li)] && !x.holdsByContract(lockName(li)) {
+		x.Oblige("lockset", key+" changed without "+lockName(li), fmt.Sprint(pos), pos, n.guard, False, li.Props)
+	}
+	// closing twice panics: the channel must be known open
+	x.Oblige("close", txt, "", pos, n.guard, Not(x.objGet(st, key, BoolS, ch)), nil)
+	x.objSet(st, key, ch, True)
 }
 
 func (x *Exec) chanRecv(n *node, ch Value, i *ssa.UnOp) Value {
